@@ -106,6 +106,16 @@ func New(ctx context.Context, params ...Parameter) (*Service, error) {
 	if err != nil {
 		return nil, errors.Wrap(err, "failed to obtain TARGET_AGGREGATORS_PER_SYNC_SUBCOMMITTEE from spec")
 	}
+	// These values are used as divisors.
+	if syncCommitteeSubnetCount == 0 {
+		return nil, errors.New("SYNC_COMMITTEE_SUBNET_COUNT cannot be 0")
+	}
+	if syncCommitteeSize < syncCommitteeSubnetCount {
+		return nil, errors.New("SYNC_COMMITTEE_SIZE cannot be less than SYNC_COMMITTEE_SUBNET_COUNT")
+	}
+	if targetAggregatorsPerSyncCommittee == 0 {
+		return nil, errors.New("TARGET_AGGREGATORS_PER_SYNC_SUBCOMMITTEE cannot be 0")
+	}
 
 	s := &Service{
 		log:                               log,
